@@ -339,8 +339,11 @@ def random_cases(draw):
         if examples:
             field["example"] = draw(st.sampled_from(examples))
             if draw(st.booleans()):
-                # ... and a first, generous declaration of the allowed characters in front of the field
-                fmt["allowed_at_first"] = draw(st.sampled_from(["32...", "0...", "32...255, 256..."]))
+                # ... and a first, generous declaration of the allowed characters in front of the field (one that
+                # allows every character of the example, which is checked when the field row is read)
+                lowest = min(ord(ch) for ch in field["example"])
+                fmt["allowed_at_first"] = draw(st.sampled_from(
+                    ["0..."] + (["32...", "32...255, 256..."] if lowest >= 32 else [])))
     return {"fmt": fmt, "field": field, "cells": cells}
 
 
